@@ -415,9 +415,53 @@ VERIF_THREAD_RS = """//! generated by /verif/check.py (shadow build only)
 #![allow(unused_imports, dead_code)]
 pub use std::thread::*;
 pub use shuttle::thread::{
-    current, park, park_timeout, scope, sleep, spawn, yield_now, Builder, JoinHandle, Scope, ScopedJoinHandle,
-    Thread, ThreadId,
+    current, park, park_timeout, scope, sleep, spawn, yield_now, JoinHandle, Scope, ScopedJoinHandle, Thread, ThreadId,
 };
+
+/// std's `Builder` over shuttle's (which has no `spawn_scoped`)
+#[derive(Debug, Default)]
+pub struct Builder {
+    name: Option<String>,
+    stack_size: Option<usize>,
+}
+
+impl Builder {
+    pub fn new() -> Self {
+        Self::default()
+    }
+    pub fn name(mut self, name: String) -> Self {
+        self.name = Some(name);
+        self
+    }
+    pub fn stack_size(mut self, size: usize) -> Self {
+        self.stack_size = Some(size);
+        self
+    }
+    fn inner(self) -> shuttle::thread::Builder {
+        let mut b = shuttle::thread::Builder::new();
+        if let Some(n) = self.name {
+            b = b.name(n);
+        }
+        if let Some(s) = self.stack_size {
+            b = b.stack_size(s);
+        }
+        b
+    }
+    pub fn spawn<F, T>(self, f: F) -> std::io::Result<JoinHandle<T>>
+    where
+        F: FnOnce() -> T + Send + 'static,
+        T: Send + 'static,
+    {
+        self.inner().spawn(f)
+    }
+    pub fn spawn_scoped<'scope, 'env, F, T>(self, scope: &'scope Scope<'scope, 'env>, f: F) -> std::io::Result<ScopedJoinHandle<'scope, T>>
+    where
+        F: FnOnce() -> T + Send + 'scope,
+        T: Send + 'scope,
+    {
+        Ok(scope.spawn(f))
+    }
+}
 """
 
 
@@ -591,12 +635,37 @@ class Batch:
         shutil.rmtree(self.dir, ignore_errors=True)
         os.makedirs(self.dir, exist_ok=True)
 
-    def spawn(self, args, tag, progress=False, binary=None, env=None, cwd=None):
+    def spawn(self, args, tag, progress=False, binary=None, env=None, cwd=None, prefix=(), tty=False):
+        """`prefix`: command words put in front (e.g. taskset -c 0). `tty`: stdin, stdout and stderr
+        of the worker are a pseudo-terminal (drained into the .err file by a thread) instead of files."""
         out = os.path.join(self.dir, f"{tag}.json")
-        err = open(os.path.join(self.dir, f"{tag}.err"), "w")
+        errp = os.path.join(self.dir, f"{tag}.err")
+        err = open(errp, "w")
         prog = os.path.join(self.dir, f"{tag}.progress")
         extra = ["--progress", prog] if progress else []
-        p = subprocess.Popen([binary or BIN, *args, *extra, "--out", out, "--replay-dir", REPLAYS], env=sim_env(env), cwd=cwd, stdout=err, stderr=err)
+        cmd = [*prefix, binary or BIN, *args, *extra, "--out", out, "--replay-dir", REPLAYS]
+        if tty:
+            import pty
+            import threading
+            master, slave = pty.openpty()
+            p = subprocess.Popen(cmd, env=sim_env(env), cwd=cwd, stdin=slave, stdout=slave, stderr=slave, close_fds=True)
+            os.close(slave)
+
+            def drain(fd=master, f=err):
+                try:
+                    while True:
+                        b = os.read(fd, 4096)
+                        if not b:
+                            break
+                        f.write(b.decode("utf-8", "replace"))
+                        f.flush()
+                except OSError:
+                    pass
+                finally:
+                    os.close(fd)
+            threading.Thread(target=drain, daemon=True).start()
+        else:
+            p = subprocess.Popen(cmd, env=sim_env(env), cwd=cwd, stdout=err, stderr=err)
         self.procs.append(dict(p=p, out=out, tag=tag, args=args, prog=prog if progress else None, last=None, last_t=time.time()))
 
     def wait(self, timeout_s, tolerate_crash=False):
@@ -872,8 +941,8 @@ def write_evidence(prop, tier, seed, level, coverage, assumptions, wall, nviol):
 # --------------------------------------------------------------------------- C18
 
 C18_PLAN = {
-    "quick": dict(runs=16000, depth_chains=256, depth_max=300, scheds=4, cold=128, selftest=192, miri_light=4, miri_full=2, miri_conv=16, shadow=4000, xl_den=4000, budget=900),
-    "thorough": dict(runs=750000, depth_chains=4096, depth_max=1100, scheds=4, cold=2048, selftest=2048, miri_light=192, miri_full=48, miri_conv=192, miri_fit=32, shadow=300000, xl_den=1500, budget=7200),
+    "quick": dict(runs=16000, big_inputs=5, depth_chains=256, depth_max=300, scheds=4, cold=128, selftest=192, miri_light=4, miri_full=2, miri_conv=16, shadow=4000, xl_den=4000, budget=900),
+    "thorough": dict(runs=750000, big_inputs=40, depth_chains=4096, depth_max=1100, scheds=4, cold=2048, selftest=2048, miri_light=192, miri_full=48, miri_conv=192, miri_fit=32, shadow=300000, xl_den=1500, budget=7200),
 }
 
 
@@ -910,8 +979,12 @@ def selftest(seed, n, raws, layouts=None, quiet=False, only_run=None):
     for li, W in enumerate(layouts):
         for w in range(W):
             dump = os.path.join(b.dir, f"log-{W}-{w}.txt")
+            # ... on ONE cpu (std::thread::available_parallelism() is 1 there) with a terminal as stdin /
+            # stdout / stderr (is_terminal() is true there): neither is an input of a parse
+            pin = ("taskset", "-c", str(sorted(os.sched_getaffinity(0))[0])) if li == 1 and shutil.which("taskset") else ()
             b.spawn(["c18", "--seed", str(seed), "--salt", "4", "--runs", str(n), "--worker", str(w), "--workers", str(W),
-                     "--scheds", "2", "--dump-log", dump], f"st-{W}-{w}", env=other_env if li == 1 else None, cwd=fsenv if li == 1 else None)
+                     "--scheds", "2", "--dump-log", dump], f"st-{W}-{w}", env=other_env if li == 1 else None, cwd=fsenv if li == 1 else None,
+                    prefix=pin, tty=(li == 1))
     outs, hung = b.wait(1200)
     if hung:
         die(f"selftest workers hung: {hung}")
@@ -999,6 +1072,49 @@ def selftest(seed, n, raws, layouts=None, quiet=False, only_run=None):
     b.cleanup()
     return {"seeds": n, "layouts": layouts, "processes": sum(layouts), "log_items_compared": items, "divergences": divergences,
             "runs_differing_only_in_tracing_emission": trace_only}
+
+
+def affinity_phase(seed, n):
+    """Big inputs (140 KB ... 1.1 MB: above any plausible threshold for helper threads, chunked or
+    parallel scanning) fingerprinted by `cooksim bigfp` in three fresh processes that may run on one
+    CPU, on two CPUs and on all of them. The lines must be identical. Returns (violations, stats)."""
+    cpus = sorted(os.sched_getaffinity(0))
+    if not shutil.which("taskset") or len(cpus) < 3:
+        return 0, {"skipped": "taskset missing or fewer than 3 CPUs available"}
+    layouts = [("all", ()), ("one", ("taskset", "-c", str(cpus[0]))), ("two", ("taskset", "-c", f"{cpus[0]},{cpus[1]}"))]
+    procs = []
+    for name, prefix in layouts:
+        procs.append((name, subprocess.Popen([*prefix, BIN, "bigfp", "--seed", str(seed), "--n", str(n)], env=sim_env(), stdout=subprocess.PIPE, stderr=subprocess.PIPE, text=True)))
+    outs = {}
+    for name, p in procs:
+        try:
+            o, e = p.communicate(timeout=1800)
+        except subprocess.TimeoutExpired:
+            p.kill()
+            die(f"cooksim bigfp ({name}) did not finish")
+        if p.returncode != 0:
+            die(f"cooksim bigfp ({name}) exited with {p.returncode}: {e[-800:]}")
+        outs[name] = [l for l in o.splitlines() if l.strip()]
+    base = outs["all"]
+    viol = 0
+    for name in ("one", "two"):
+        if outs[name] != base:
+            diff = [(a, b) for a, b in zip(base, outs[name]) if a != b][:3]
+            idx = diff[0][0].split("\t")[0] if diff else "0"
+            os.makedirs(REPLAYS, exist_ok=True)
+            pth = os.path.join(REPLAYS, f"C18-cpu-dependence-{seed}-{name}.json")
+            json.dump({"property": "C18", "class": "cpu-dependence",
+                       "provenance": {"verif_seed": seed, "salt": 0, "run_index": int(idx), "run_seed": 0, "worker": 0, "workers": 1, "sched_index": 0},
+                       "violations": [{"class": "cpu-dependence", "key": name, "phase": "affinity",
+                                       "detail": f"the same big input gives different results in a process that may use all CPUs and in one restricted to {name} CPU(s): {diff}"}],
+                       "cpus": {"one": cpus[0], "two": [cpus[0], cpus[1]]},
+                       "notes": [f"replay: {BIN} bigfp --seed {seed} --n {n} --only {idx}  versus  taskset -c {cpus[0]}{'' if name == 'one' else ',' + str(cpus[1])} {BIN} bigfp --seed {seed} --n {n} --only {idx}"]},
+                      open(pth, "w"), indent=1)
+            viol += 1
+            log(f"  big input {idx}: results depend on the CPUs the process may use (all vs {name}): {diff[:1]}")
+            log(f"VIOLATION property=C18 replay={pth}")
+    sizes = sorted({int(l.split("\t")[1]) for l in base})
+    return viol, {"big_inputs": n, "bytes": sizes, "fingerprints_per_process": len(base), "processes": [x[0] for x in layouts]}
 
 
 def miri_run(shape, seeds, tier_budget):
@@ -1164,6 +1280,9 @@ def check_c18(tier, seed):
         db.cleanup()
         fired["nested_parse_chain"] = depth_stats["chains"]
         log(f"[C18] nesting depth ({time.time() - t0:.0f}s): {depth_stats['chains']} chains of nested parses, deepest {depth_stats['deepest']}, {depth_stats['parses']} parses")
+    # ---- CPU count / affinity on big inputs
+    aff_viol, aff_stats = (0, {"skipped": "simulated scheduling is blocked"}) if sim_limited else affinity_phase(seed, plan["big_inputs"])
+    log(f"[C18] cpu affinity ({time.time() - t0:.0f}s): {aff_stats}")
     # ---- shadow batch: the same simulation against a copy of the library whose std::sync
     # primitives are rewritten to shuttle's, so that every atomic / lock operation inside the
     # library is a scheduling point (races between adjacent atomics, lock-per-step protocols)
@@ -1293,7 +1412,7 @@ def check_c18(tier, seed):
                 log("  " + txt.strip().splitlines()[-1][:300] if txt.strip() else "")
                 log(f"VIOLATION property=C18 replay={p}")
         log(f"[C18] Miri ({time.time() - t0:.0f}s): {lo} light + {fo} full + {co} conv seeds clean, {miri_viol} failing")
-    unlisted = report("C18", raws) + real_hangs + st["divergences"] + miri_viol + cold_div
+    unlisted = report("C18", raws) + real_hangs + st["divergences"] + miri_viol + cold_div + aff_viol
     wall = time.time() - t0
     execs = agg["executions"] + cold_execs + shadow_stats["executions"]
     miri_ok = miri.get("light_seeds", 0) + miri.get("full_seeds", 0) + miri.get("conv_seeds", 0) + miri.get("fit_seeds", 0)
@@ -1324,6 +1443,7 @@ def check_c18(tier, seed):
                        "what": "libc clock reads and sleeps of the worker processes are interposed (LD_PRELOAD /verif/simclock); reference, perturbed and post phases run under discrete simulated time "
                                "(fixed start instant, advance per read), the ambient reference pass and clock_jump faults change date and speed of time; the read counter shows whether the library consulted the clock at all"},
         "nesting_depth": depth_stats,
+        "cpu_affinity": aff_stats,
         "hash_seeds": agg["hash_seeds"],
         "seamed_maps_created": agg["maps_created"],
         "miri": miri,
@@ -1348,8 +1468,8 @@ def check_c18(tier, seed):
 # --------------------------------------------------------------------------- C11
 
 C11_PLAN = {
-    "quick": dict(runs=400000, enum_files=200, exh_len=7, wide_len=5, collide_files=128, budget=600),
-    "thorough": dict(runs=30000000, enum_files=8000, exh_len=11, wide_len=8, collide_files=8192, budget=5400),
+    "quick": dict(runs=400000, miri_aisle=("aislelight", 2), enum_files=200, exh_len=7, wide_len=5, collide_files=128, budget=600),
+    "thorough": dict(runs=30000000, miri_aisle=("aisle", 32), enum_files=8000, exh_len=11, wide_len=8, collide_files=8192, budget=5400),
 }
 
 
@@ -1405,10 +1525,36 @@ def check_c11(tier, seed):
     n_nontrivial = count_distinct(nt_files)
     batch.cleanup()
     sim_wall = max([o["wall_s"] for o in outs], default=0.0)
-    unlisted = report("C11", raws) + len(hung)
+    # ---- Miri over aisle::parse / write / lookup: the error spans come from pointer arithmetic
+    # in an `unsafe` block; Miri checks provenance and bounds of every such computation, which a
+    # check of the resulting numbers cannot do (single-threaded; the seed varies addresses and
+    # the sampled strings)
+    miri_aisle = {"shape": plan["miri_aisle"][0], "seeds": 0, "failures": 0, "skipped": os.environ.get("VERIF_SKIP_MIRI") == "1"}
+    miri_viol = 0
+    if not miri_aisle["skipped"]:
+        shape, nseeds = plan["miri_aisle"]
+        base = (seed * 7919) % 100000
+        okc, fails = miri_run(shape, [base + k for k in range(nseeds)], plan["budget"])
+        miri_aisle["seeds"] = okc
+        for shp, s_, txt in fails:
+            miri_viol += 1
+            ub = "Undefined Behavior" in txt
+            os.makedirs(REPLAYS, exist_ok=True)
+            pth = os.path.join(REPLAYS, f"C11-miri-{shp}-{s_}.json")
+            rate = ["0.02", "0.1", "0.3"][s_ % 3] if isinstance(s_, int) else "0.1"
+            json.dump({"property": "C11", "class": "miri-ub" if ub else "miri-mismatch", "violations": [{"class": "miri-ub" if ub else "miri-mismatch", "key": shp, "phase": "miri", "detail": txt[-2500:]}],
+                       "notes": [f"replay: cd /verif/cookmiri && MIRIFLAGS='-Zmiri-seed={s_} -Zmiri-preemption-rate={rate}' cargo +nightly miri run --offline -- {shp} {s_}"]}, open(pth, "w"), indent=1)
+            if miri_viol <= 3:
+                log(f"  Miri {shp} seed {s_}: {'undefined behaviour' if ub else 'mismatch / failure'}")
+                log(("  " + txt.strip().splitlines()[-1][:300]) if txt.strip() else "")
+                log(f"VIOLATION property=C11 replay={pth}")
+        miri_aisle["failures"] = miri_viol
+        log(f"[C11] Miri ({time.time() - t0:.0f}s): {okc} {shape} seed(s) clean, {miri_viol} failing")
+    unlisted = report("C11", raws) + len(hung) + miri_viol
     wall = time.time() - t0
     coverage = {
         "evaluations": agg["executions"],
+        "miri_aisle": miri_aisle,
         "distinct_nontrivial": n_nontrivial,
         "rule": "one evaluation = one aisle scenario (file text + two replica histories with sink fault plans) checked by P1/W1/W2/W3/H1/L1; "
                 "three generators: seeded random (structured files, token soup, unit-test files), enumeration of every fault position of every write call "
@@ -1504,6 +1650,20 @@ def replay(path):
         st = selftest(seed, i + 1, raws, layouts=[1, W], quiet=True, only_run=i)
         if st["divergences"] or raws:
             log(f"REPRODUCED: run {i} differs between a 1-process and a {W}-process layout")
+            log(f"VIOLATION property={prop} replay={path}")
+            return 1
+        log(f"NOT-REPRODUCED property={prop} class={cls}")
+        return 0
+    if cls == "cpu-dependence":
+        idx, seed = str(prov.get("run_index", 0)), str(prov.get("verif_seed", 1))
+        cp = rf.get("cpus", {})
+        pins = [(), ("taskset", "-c", str(cp.get("one", 0))), ("taskset", "-c", ",".join(str(x) for x in cp.get("two", [0, 1])))]
+        res = []
+        for pin in pins:
+            pr = subprocess.run([*pin, BIN, "bigfp", "--seed", seed, "--n", str(int(idx) + 1), "--only", idx], env=sim_env(), stdout=subprocess.PIPE, stderr=subprocess.STDOUT, text=True, timeout=1800)
+            res.append(pr.stdout)
+        if res[0] != res[1] or res[0] != res[2]:
+            log(f"REPRODUCED: big input {idx} fingerprints differ between CPU affinities")
             log(f"VIOLATION property={prop} replay={path}")
             return 1
         log(f"NOT-REPRODUCED property={prop} class={cls}")
